@@ -35,5 +35,7 @@ meta = {
                           "meaning": "patch applies to /repo HEAD, touched packages build, tests of the touched packages that pass without the patch still pass, demo passes without and fails with the patch"},
     "checks_run": {"command": "lib/try_seed.sh patch.diff " + " ".join(checks), "caught": caught, "checks": checks},
 }
+if os.environ.get("SUMMARY"):
+    meta["summary"] = os.environ["SUMMARY"]
 json.dump(meta, open(os.path.join(dst, "meta.json"), "w"), indent=1)
 print(dst)
